@@ -14,6 +14,8 @@ import GormModel.Model.ReadPaths
 import GormModel.Lemmas.Limit
 import GormModel.Lemmas.Batches
 import GormModel.Lemmas.ReadPaths
+import GormModel.Model.ScanLoop
+import GormModel.Lemmas.ScanLoop
 namespace Gorm
 
 /-! ## Limit / Offset merge as a fold over ANY call sequence -/
@@ -310,5 +312,203 @@ example :
                        order := [{ key := fun k => ((k % 2 : Nat) : Int), desc := true }] }
     (c.find [1, 2, 3, 4, 5]).rows = [3, 5, 2, 4] ∧ (c.first [1, 2, 3, 4, 5]).rows = [3]
     ∧ (c.last [1, 2, 3, 4, 5]).rows = [5] ∧ c.count [1, 2, 3, 4, 5] = 4 := by decide
+
+/-! ## read paths over a cursor that FAILS while it is iterated; NULL cells; REUSED destinations
+
+  `mkCursor rows f`: the driver delivers `rows`, with `f = some k` its `Next` fails after k rows (the error is
+  visible only through `rows.Err()`).  `delivered rows f` = the rows handed out before that, `faultReached rows f`
+  = an iteration to the end runs into the fault.  Two findings of the unchanged tree are stated as
+  counterexamples and excluded, exactly by the negation of their pattern, from the theorem they break:
+    F7d  First/Take/Last/Find into ONE pre-populated struct keeps a stale non-pointer / Scanner field on NULL,
+    F7e  Scan(&slice) into a non-empty slice leaves it untouched when no row is read. -/
+open ScanLoop
+
+/-- Find / Pluck / Scan(&int)-style destinations through callbacks.Query (scan.go Scan, mode 0), for EVERY
+    result set, fault position, column list and previous destination content: exactly the rows delivered before
+    the fault are in the destination (a struct slice is reset first, a map slice is appended to), RowsAffected is
+    their number, and the driver's error is reported iff the iteration reached the fault. -/
+theorem C15_find_under_fault (rows : List SRow) (f : Option Nat) (raise : Bool) (cols : List String)
+    (sch : Schema) (old olds : List Rec) (v0 : Cell) :
+    let q := queryPath (mkCursor rows f) raise cols (.structs sch old)
+    let qm := queryPath (mkCursor rows f) raise cols (.maps olds)
+    let qp := queryPath (mkCursor rows f) raise cols (.prim v0)
+    q.dest = .structs sch ((delivered rows f).map (scanIntoStruct sch (zeroRec sch) cols))
+    ∧ qm.dest = .maps (olds ++ (delivered rows f).map (scanIntoMap [] cols))
+    ∧ q.ra = (delivered rows f).length ∧ qm.ra = (delivered rows f).length ∧ qp.ra = (delivered rows f).length
+    ∧ q.err = faultReached rows f ∧ qm.err = faultReached rows f ∧ qp.err = faultReached rows f := by
+  intro q qm qp
+  have h1 := loopG_mkCursor (fun acc r => acc ++ [scanIntoStruct sch (zeroRec sch) cols r]) rows f [] 0
+  have h2 := loopG_mkCursor (fun acc r => acc ++ [scanIntoMap [] cols r]) rows f olds 0
+  have h3 := loopG_mkCursor (fun (_ : Cell) (r : SRow) => r.headD none) rows f v0 0
+  rw [foldl_append_singleton] at h1 h2
+  simp only [List.nil_append, Nat.zero_add] at h1 h2 h3
+  refine ⟨?_, ?_, h1.2.1, h2.2.1, h3.2.1, h1.2.2, h2.2.2, h3.2.2⟩
+  · show Dest.structs sch _ = _; exact congrArg _ h1.1
+  · show Dest.maps _ = _; exact congrArg _ h2.1
+
+/-- finisher_api.go Scan (Rows, one rows.Next, ScanRows in ScanInitialized mode | else-branch) reports the SAME
+    error and RowsAffected as Find on every cursor — in particular the driver's error whenever the fault is
+    reached, never a silent prefix — and leaves the same destination content: map slices always, struct slices
+    unless no row was read into a non-empty slice (¬F7e). -/
+theorem C15_scan_eq_find (rows : List SRow) (f : Option Nat) (cols : List String) (sch : Schema)
+    (old olds : List Rec) :
+    let q := queryPath (mkCursor rows f) false cols (.structs sch old)
+    let s := dbScan (mkCursor rows f) cols (.structs sch old)
+    let qm := queryPath (mkCursor rows f) false cols (.maps olds)
+    let sm := dbScan (mkCursor rows f) cols (.maps olds)
+    s.err = q.err ∧ s.ra = q.ra ∧ sm.err = qm.err ∧ sm.ra = qm.ra ∧ sm.dest = qm.dest
+    ∧ (delivered rows f ≠ [] ∨ old = [] → s.dest = q.dest) := by
+  dsimp only
+  rw [mkCursor_eq]
+  cases hd : delivered rows f with
+  | nil =>
+    cases hf : faultReached rows f <;>
+      simp [dbScan, queryPath, gormScan, finishScan, loopStructs, loopMaps, loopG]
+  | cons r rs =>
+    cases hf : faultReached rows f <;>
+      simp [dbScan, queryPath, gormScan, finishScan]
+
+/-- F7e (witness replayed on the real code): `Scan(&xs)` with `xs` non-empty and an empty result keeps the
+    stale elements (RowsAffected 0), `Find(&xs)` on the same cursor empties the slice. -/
+theorem C15_scan_keeps_dest_counterexample :
+    (dbScan (mkCursor [] none) ["id"] (.structs [⟨"id", some 0, false⟩] [[("id", some 77)]])).dest
+        = .structs [⟨"id", some 0, false⟩] [[("id", some 77)]]
+    ∧ (queryPath (mkCursor [] none) false ["id"] (.structs [⟨"id", some 0, false⟩] [[("id", some 77)]])).dest
+        = .structs [⟨"id", some 0, false⟩] [] := ⟨rfl, rfl⟩
+
+/-- No multi-row read path returns a truncated prefix with a nil error: when Find, Scan or the caller's
+    `for rows.Next() { ScanRows }` loop (checking `rows.Err()` afterwards) report no error, they have delivered
+    EVERY row of the result set; when the driver fails within the result set, all three report it. -/
+theorem C15_no_silent_prefix (rows : List SRow) (f : Option Nat) (cols : List String) (sch : Schema)
+    (old : List Rec) (d : Dest) :
+    let q := queryPath (mkCursor rows f) false cols (.structs sch old)
+    let s := dbScan (mkCursor rows f) cols (.structs sch old)
+    let l := rowsLoop cols (mkCursor rows f) d []
+    (q.err = false → q.ra = rows.length)
+    ∧ (s.err = false → s.ra = rows.length)
+    ∧ (l.2 = false → l.1.length = rows.length)
+    ∧ (faultReached rows f = true → q.err = true ∧ s.err = true ∧ l.2 = true)
+    ∧ q.ra ≤ rows.length ∧ l.1.length = q.ra := by
+  intro q s l
+  have hq := C15_find_under_fault rows f false cols sch old [] none
+  have hs := C15_scan_eq_find rows f cols sch old []
+  have hl : l = (snapsOf cols d (delivered rows f), faultReached rows f) := rowsLoop_mkCursor cols rows f d
+  simp only at hq hs
+  obtain ⟨-, -, hra, -, -, herr, -, -⟩ := hq
+  obtain ⟨hse, hsr, -⟩ := hs
+  have hall : faultReached rows f = false → (delivered rows f).length = rows.length := fun h => by
+    rw [delivered_all_of_not_reached rows f h]
+  refine ⟨?_, ?_, ?_, ?_, ?_, ?_⟩
+  · intro h; show q.ra = _; rw [hra]; exact hall (herr ▸ h)
+  · intro h; show s.ra = _; rw [hsr, hra]; exact hall (herr ▸ hse ▸ h)
+  · intro h; rw [hl] at h ⊢; simp only [snapsOf_length]; exact hall h
+  · intro h; exact ⟨herr ▸ h, hse ▸ herr ▸ h, by rw [hl]; exact h⟩
+  · show q.ra ≤ _; rw [hra]; exact delivered_length_le rows f
+  · rw [hl]; show (snapsOf cols d (delivered rows f)).length = q.ra; rw [hra, snapsOf_length]
+
+/-- scan.go scanIntoMap: EVERY result column is assigned — after the call the key is present and holds this row's
+    cell, `nil` for SQL NULL included — whatever the map held before; keys that are not result columns are kept.
+    So a map reused across rows / queries never shows a previous row's value, and a fresh map has a key per column. -/
+theorem C15_map_columns_assigned (m : Rec) (cols : List String) (r : SRow) (hn : cols.Nodup) :
+    (∀ c v, (c, v) ∈ cols.zip r → recGet (scanIntoMap m cols r) c = some v)
+    ∧ (∀ k, k ∉ cols → recGet (scanIntoMap m cols r) k = recGet m k) :=
+  ⟨fun c v h => scanIntoMap_get m cols r hn c v h, fun k h => scanIntoMap_get_other m cols r k h⟩
+
+/-- non-vacuity: a NULL in the second column of the second row, one map reused for both rows -/
+example : scanIntoMap (scanIntoMap [("zz", some 9)] ["id", "nick"] [some 1, some 7]) ["id", "nick"] [some 2, none]
+    = [("zz", some 9), ("id", some 2), ("nick", none)] := by decide
+
+/-- The streaming idiom `for rows.Next() { db.ScanRows(rows, &dest) }` with ONE destination declared outside the
+    loop, over a cursor that may fail: as many snapshots as rows delivered, `rows.Err()` set iff the fault was
+    reached; with a map the i-th snapshot reports the i-th row on every result column (NULL ⇒ key ↦ nil) whatever
+    the map held before; with a struct (zeroed by ScanRows) it is what a fresh struct would hold. -/
+theorem C15_rows_loop_reused_dest (cols : List String) (hn : cols.Nodup) (rows : List SRow) (f : Option Nat)
+    (m : Rec) (sch : Schema) (v : Rec) :
+    let lm := rowsLoop cols (mkCursor rows f) (.map1 m) []
+    let ls := rowsLoop cols (mkCursor rows f) (.struct1 sch v) []
+    lm.2 = faultReached rows f ∧ ls.2 = faultReached rows f
+    ∧ lm.1.length = (delivered rows f).length
+    ∧ (∀ i (hi : i < (delivered rows f).length), ∃ mi, lm.1[i]? = some (Dest.map1 mi)
+        ∧ ∀ c x, (c, x) ∈ cols.zip (delivered rows f)[i] → recGet mi c = some x)
+    ∧ ls.1 = (delivered rows f).map (fun r => Dest.struct1 sch (scanIntoStruct sch (zeroRec sch) cols r)) := by
+  intro lm ls
+  have h1 : lm = _ := rowsLoop_mkCursor cols rows f (.map1 m)
+  have h2 : ls = _ := rowsLoop_mkCursor cols rows f (.struct1 sch v)
+  rw [h1, h2]
+  refine ⟨rfl, rfl, snapsOf_length _ _ _, ?_, snapsOf_struct_fresh _ _ _ _⟩
+  intro i hi
+  exact snapsOf_map_reports cols hn m (delivered rows f) i hi
+
+/-- a struct element / a zeroed struct (slices, ScanRows, Scan): a selected column with a readable field holds the
+    row's cell, and for NULL the field's zero value (nil pointer, invalid Null*, 0) — never an earlier row's value -/
+theorem C15_struct_elem_values (sch : Schema) (cols : List String) (r : SRow) (hn : cols.Nodup)
+    (c : String) (cell : Cell) (fl : FieldSpec) (hf : sch.field? c = some fl) (h : (c, cell) ∈ cols.zip r) :
+    recGet (scanIntoStruct sch (zeroRec sch) cols r) c
+      = some (match cell with | some x => some x | none => if fl.resetOnNull then none else fl.zero) := by
+  rw [scanIntoStruct_get sch _ cols r hn c cell fl hf h, recGet_zeroRec sch c fl hf]
+  cases cell <;> rfl
+
+/-- F7d (witness replayed on the real code): `Take(&x)` with `x.B = {916 true}` left over and a row whose `b` is
+    NULL: the Query path (mode 0, struct not zeroed; field.Set ignores NULL for Scanner / non-pointer kinds) keeps
+    916, while Scan / ScanRows (struct zeroed first) report NULL. -/
+theorem C15_stale_null_counterexample :
+    (queryPath (mkCursor [[some 2, none]] none) true ["id", "b"]
+        (.struct1 [⟨"id", some 0, false⟩, ⟨"b", none, false⟩] [("id", some 0), ("b", some 916)])).dest
+      = .struct1 [⟨"id", some 0, false⟩, ⟨"b", none, false⟩] [("id", some 2), ("b", some 916)]
+    ∧ (dbScan (mkCursor [[some 2, none]] none) ["id", "b"]
+        (.struct1 [⟨"id", some 0, false⟩, ⟨"b", none, false⟩] [("id", some 0), ("b", some 916)])).dest
+      = .struct1 [⟨"id", some 0, false⟩, ⟨"b", none, false⟩] [("id", some 2), ("b", none)] := by
+  decide
+
+/-- ¬F7d: when every field that field.Set does not reset on NULL holds its zero value in the destination struct
+    (in particular a fresh struct; pointer fields may hold anything), First/Take/Last/Find into that ONE struct
+    report, on every selected column, exactly what Scan / ScanRows report. -/
+theorem C15_single_struct_reuse_partial (sch : Schema) (v : Rec) (cols : List String) (r : SRow) (rest : List Ev)
+    (raise : Bool) (hn : cols.Nodup)
+    (hz : ∀ fl ∈ sch, fl.resetOnNull = false → (recGet v fl.name).getD fl.zero = fl.zero)
+    (c : String) (cell : Cell) (fl : FieldSpec) (hf : sch.field? c = some fl) (h : (c, cell) ∈ cols.zip r) :
+    ∃ a b, (queryPath (.row r :: rest) raise cols (.struct1 sch v)).dest = .struct1 sch a
+      ∧ (dbScan (.row r :: rest) cols (.struct1 sch v)).dest = .struct1 sch b
+      ∧ recGet a c = recGet b c := by
+  refine ⟨scanIntoStruct sch v cols r, scanIntoStruct sch (zeroRec sch) cols r, rfl, rfl, ?_⟩
+  rw [scanIntoStruct_get sch _ cols r hn c cell fl hf h, scanIntoStruct_get sch _ cols r hn c cell fl hf h,
+    recGet_zeroRec sch c fl hf]
+  have hmem : fl ∈ sch := List.mem_of_find?_eq_some hf
+  have hname : fl.name = c := by
+    have := List.find?_some hf
+    simpa using this
+  cases cell with
+  | some x => rfl
+  | none =>
+    simp only [fieldSet, Option.getD_some]
+    cases hr : fl.resetOnNull with
+    | true => rfl
+    | false =>
+      have := hz fl hmem hr
+      rw [hname] at this
+      simp [this]
+
+/-- single-row destinations under a fault: the error is reported iff the FIRST `rows.Next()` fails; a fault behind
+    the consumed row is not looked at (the latitude the oracle leaves), and ErrRecordNotFound is raised exactly
+    when the result set is empty and no error occurred. -/
+theorem C15_single_under_fault (rows : List SRow) (f : Option Nat) (cols : List String) (m : Rec) :
+    let q := queryPath (mkCursor rows f) true cols (.map1 m)
+    let s := dbScan (mkCursor rows f) cols (.map1 m)
+    (q.err = true ↔ f = some 0) ∧ (s.err = true ↔ f = some 0)
+    ∧ (q.notFound = true ↔ rows = [] ∧ f ≠ some 0) ∧ s.notFound = false
+    ∧ q.ra = s.ra ∧ (q.ra = 1 ↔ delivered rows f ≠ []) := by
+  dsimp only
+  cases f with
+  | none =>
+    cases rows <;> simp [mkCursor, queryPath, dbScan, gormScan, finishScan, delivered]
+  | some k =>
+    cases k with
+    | zero => cases rows <;> simp [mkCursor, queryPath, dbScan, gormScan, finishScan, delivered]
+    | succ k =>
+      cases rows with
+      | nil => simp [mkCursor, queryPath, dbScan, gormScan, finishScan, delivered]
+      | cons r rs =>
+        by_cases hk : k ≤ rs.length <;>
+          simp [mkCursor, hk, queryPath, dbScan, gormScan, finishScan, delivered]
 
 end Gorm
